@@ -177,9 +177,9 @@ func (x *Exec) strLit(s string) *Term {
 	return t
 }
 
-func (x *Exec) strLen(s *Term) *Term { return x.b.App("str.len", x.idxSort(), s) }
+func (x *Exec) strLen(s *Term) *Term { return x.b.App("gostr.len", x.idxSort(), s) }
 func (x *Exec) strArr(s *Term) *Term {
-	return x.b.App("str.arr", ArraySort(x.idxSort(), x.intSort(8)), s)
+	return x.b.App("gostr.arr", ArraySort(x.idxSort(), x.intSort(8)), s)
 }
 
 // ---------- identifiers
@@ -500,12 +500,12 @@ func (x *Exec) binary(st *State, op token.Token, a, c *Value, rt types.Type, at 
 	case kString:
 		switch op {
 		case token.ADD:
-			r := x.b.App("str.cat", StrSort, a.scalar(), c.scalar())
+			r := x.b.App("gostr.cat", StrSort, a.scalar(), c.scalar())
 			x.assume(st, x.b.Eq(x.strLen(r), x.b.Add(x.strLen(a.scalar()), x.strLen(c.scalar()))))
 			x.useStrCat = true
 			return scalarV(t, r)
 		case token.LSS, token.LEQ, token.GTR, token.GEQ:
-			lt := func(p, q *Term) *Term { return x.b.App("str.lt", BoolSort, p, q) }
+			lt := func(p, q *Term) *Term { return x.b.App("gostr.lt", BoolSort, p, q) }
 			var r *Term
 			switch op {
 			case token.LSS:
@@ -968,14 +968,14 @@ func (x *Exec) convert(st *State, v *Value, t types.Type, at ast.Node) *Value {
 func (x *Exec) strOf(st *State, v *Value) *Term {
 	arr, off, ln := v.L["arr"], v.L["off"], v.L["len"]
 	// string([]byte(s)) == s when the slice is the whole of str.arr(s)
-	if arr.Op == "app" && arr.Name == "str.arr" && off.IsConst() && off.Val.Sign() == 0 {
+	if arr.Op == "app" && arr.Name == "gostr.arr" && off.IsConst() && off.Val.Sign() == 0 {
 		s := arr.Args[0]
 		if ln == x.strLen(s) {
 			return s
 		}
 	}
 	x.useStrOf = true
-	r := x.b.App("str.of", StrSort, arr, off, ln)
+	r := x.b.App("gostr.of", StrSort, arr, off, ln)
 	x.assume(st, x.b.Eq(x.strLen(r), ln))
 	return r
 }
@@ -1138,7 +1138,7 @@ func (x *Exec) evalSlice(st *State, e *ast.SliceExpr) *Value {
 		}
 		x.safety(st, "slice", e, x.b.And(x.b.Le(zero, lo, true), x.b.Le(lo, hi, true), x.b.Le(hi, x.strLen(s), true)))
 		x.useStrOf = true
-		r := x.b.App("str.of", StrSort, x.strArr(s), lo, x.b.Sub(hi, lo))
+		r := x.b.App("gostr.of", StrSort, x.strArr(s), lo, x.b.Sub(hi, lo))
 		x.assume(st, x.b.Eq(x.strLen(r), x.b.Sub(hi, lo)))
 		return scalarV(base.T, r)
 	case *types.Array:
